@@ -81,10 +81,16 @@ def call_options(draw, cfg, tau=True, limit=True):
 # ------------------------------------------------------------------------------------------------
 @st.composite
 def shapes(draw, min_teams=2, max_teams=8, max_size=8):
-    kind = draw(st.integers(0, 9))
+    kind = draw(st.integers(0, 10))
     if kind == 0:
         n = max_teams
         return [max_size] * n
+    if kind == 10:
+        # "round" totals and lopsided big teams: 64 = 8x8 = 4x16, 32, 128, 13 v 13, 16 v 10 ...
+        pool = [[8] * 8, [16] * 4, [16] * 2, [8] * 4, [4] * 8, [16] * 8, [13, 13], [16, 10], [16, 16, 1], [1, 16], [2] * 8, [5, 5, 5, 5]]
+        pool = [sh for sh in pool if len(sh) >= min_teams and len(sh) <= max_teams and max(sh) <= max_size]
+        if pool:
+            return list(draw(st.sampled_from(pool)))
     if kind <= 5:  # small
         n = draw(st.integers(min_teams, min(4, max_teams)))
         return draw(st.lists(st.integers(1, min(3, max_size)), min_size=n, max_size=n))
@@ -117,7 +123,7 @@ def _dyadic(lo, hi, k):
     return st.integers(int(math.ceil(lo * s)), int(math.floor(hi * s))).map(lambda i: i / s)
 
 
-REGIMES = ["generic", "generic", "corner", "near_equal", "identical", "targeted", "targeted", "dyadic"]
+REGIMES = ["generic", "generic", "corner", "team_corner", "near_equal", "identical", "targeted", "targeted", "dyadic"]
 
 
 @st.composite
@@ -131,6 +137,14 @@ def team_values(draw, cfg, sizes, tau_eff=None, regimes=REGIMES, allow_zero_sigm
         mu_s = st.sampled_from([-20.0 * beta, 20.0 * beta, 0.0, 19.999 * beta])
         sg_s = st.sampled_from([1e-4 * beta, 10.0 * beta] + ([0.0] if allow_zero_sigma else []))
         teams = [[[draw(st.one_of(mu_s, _mu(beta))), draw(st.one_of(sg_s, _sigma(beta)))] for _ in range(k)] for k in sizes]
+    elif regime == "team_corner":
+        # coherent extremes: every member of a team sits at the same bound, so that team *sums* reach +-(size * 20 beta) and team
+        # variances their extremes (what drives exp() arguments and Gaussian tails); teams choose independently
+        teams = []
+        for k in sizes:
+            m = draw(st.sampled_from([-20.0 * beta, 20.0 * beta, 20.0 * beta, -20.0 * beta, 0.0]))
+            sg = draw(st.sampled_from([1e-4 * beta, 1e-4 * beta, 0.2 * beta, 10.0 * beta] + ([0.0] if allow_zero_sigma else [])))
+            teams.append([[m, sg] for _ in range(k)])
     elif regime == "dyadic":
         # exact sums and differences: mu multiples of 2^-4 beta-free units, sigma powers of two
         unit = 2.0 ** round(math.log2(beta))
@@ -224,7 +238,7 @@ def tie_shape(classes):
 
 
 INT_ENC = ["int", "int_relabel"]
-ALL_ENC = ["int", "int_relabel", "float", "mixed", "bool", "huge", "zero_neg", "small_ints", "close", "scores", "scores_small", "scores_float", "omitted"]
+ALL_ENC = ["int", "int_relabel", "float", "mixed", "bool", "huge", "zero_neg", "small_ints", "close", "scores", "scores_small", "scores_float", "scores_huge", "omitted"]
 
 
 @st.composite
@@ -277,8 +291,12 @@ def _increasing(draw, m, kind):
             out.append(nxt)
         return out
     if kind == "huge":
-        pool = [-10 ** 30, -1e300, -2 ** 53 - 1, -10 ** 18, -1.5, 0, 0.5, 2 ** 53 + 1, 10 ** 18, 1e300, 10 ** 30 + 1]
+        # includes neighbours that only exact integer comparison keeps apart (2^53 vs 2^53 + 1, 2^60 vs 2^60 + 1, 10^30 vs 10^30 + 1)
+        pool = [-10 ** 30 - 1, -10 ** 30, -1e300, -2 ** 60 - 1, -2 ** 60, -2 ** 53 - 1, -2.0 ** 53, -10 ** 18, -1.5, 0, 0.5, 2.0 ** 53, 2 ** 53 + 1,
+                2 ** 60, 2 ** 60 + 1, 10 ** 18, 10 ** 18 + 1, 1e300, 10 ** 30, 10 ** 30 + 1]
         pool = sorted(set(pool))
+        for a, b in zip(pool, pool[1:]):
+            assert a < b
         idx = sorted(draw(st.lists(st.integers(0, len(pool) - 1), min_size=m, max_size=m, unique=True)))
         return [pool[i] for i in idx]
     # float / mixed: floats (some integral-valued), strictly increasing
@@ -311,7 +329,7 @@ def encodings(draw, classes, kinds=ALL_ENC):
     kind = draw(st.sampled_from(allowed))
     if kind == "omitted":
         return {}, kind
-    base = {"scores": "int_relabel", "scores_float": "float", "scores_small": "small_ints"}.get(kind, kind)
+    base = {"scores": "int_relabel", "scores_float": "float", "scores_small": "small_ints", "scores_huge": "huge"}.get(kind, kind)
     vals = draw(_increasing(m, base))
     for a, b in zip(vals, vals[1:]):
         assert a < b
@@ -319,7 +337,7 @@ def encodings(draw, classes, kinds=ALL_ENC):
     enc = [_alias(draw, vals[c], mixed) for c in classes]
     if kind == "mixed" and draw(st.booleans()):
         enc = [(_alias(draw, float(v), "mixed") if isinstance(v, int) and not isinstance(v, bool) and abs(v) < 2 ** 53 else v) for v in enc]
-    if kind in ("scores", "scores_float", "scores_small"):
+    if kind in ("scores", "scores_float", "scores_small", "scores_huge"):
         return {"scores": [-v for v in enc]}, kind
     return {"ranks": enc}, kind
 
